@@ -87,10 +87,10 @@ def nodeOk (A : Arr) (p : Nat) : Bool :=
   decide (nd.low < A.size) && decide (nd.high < A.size) &&
   decide (nd.var < varAt A nd.low) && decide (nd.var < varAt A nd.high)
 
-/-- every decision node reachable from the root passes `nodeOk` -/
+/-- every decision node reachable from the root passes `nodeOk` (`reachGo` never marks a terminal pointer) -/
 def cardOk (A : Arr) : Bool :=
   let seen := reachGo A (A.size + 1) (root A) (Array.replicate A.size false)
-  (List.range A.size).all fun p => !(seen.getD p false) || nodeOk A p
+  (List.range A.size).all fun p => p < 2 || !(seen.getD p false) || nodeOk A p
 
 /-- `Bdd::exact_cardinality` with its panics explicit -/
 def exactCardO (A : Arr) : Outcome Nat :=
